@@ -53,6 +53,7 @@ class CircuitBreakerDrv(Drv):
 
 
 class BulkheadDrv(Drv):
+    contention = True
     """max_concurrent 1, wait queue 1, max wait 0.75 s."""
     family = "resilience"
     covers = ("Bulkhead",)
